@@ -215,7 +215,7 @@ func (e *Exec) invokeFn(st *State, fr *Frame, fn *ssa.Function, args []Val, bind
 	}
 	// synthetic wrappers (promoted methods, bound methods, thunks) are always expanded
 	if fn.Synthetic == "" || strings.HasPrefix(fn.Synthetic, "instance of") {
-		if ct := e.W.contractFor(fn); ct != nil && (fn != e.Root || fr.Depth > 0 || true) && !ct.Inline && !e.expands(fn) {
+		if ct := e.W.contractFor(fn); ct != nil && (fn != e.Root || fr.Depth > 0 || true) && !ct.Inline && (!e.expands(fn) || e.inStack(fr, fn)) {
 			if fn == e.Root && fr.Depth == 0 {
 				// direct recursion handled via contract too
 			}
@@ -274,6 +274,11 @@ func (e *Exec) inStack(fr *Frame, fn *ssa.Function) bool {
 		if f == fn {
 			n++
 		}
+	}
+	if e.expands(fn) {
+		// an expanded callee may recurse a few levels (e.g. a name decoder following one compression pointer);
+		// deeper recursion goes through its contract again
+		return n >= 3
 	}
 	return n >= 1
 }
